@@ -182,7 +182,8 @@ def _smry_ops(b, nmax, allow_append=True):
             ops.append({"op": "wells"})
         elif k < 38:
             ops.append({"op": "groups"})
-        elif allow_append:
+        elif allow_append and k == 39 and not any(o["op"] == "append" for o in ops):
+            # (append() REPLACES the general key->value map by the buffer's: at most one per history)
             n = 1 + b.below(6)
             ops.append({"op": "append", "start": b.pick([0, 86400, 1577836800, -1, 2**31]), "undef": b.double(),
                         "ops": _smry_ops(b, n, False)})
